@@ -8,8 +8,7 @@ label = sys.argv[3] if len(sys.argv) > 3 else i
 dst = f'/verif/seeded/{label}'
 os.makedirs(dst + '/demo', exist_ok=True)
 shutil.copy(f'{src}/{i}.patch.diff', dst + '/patch.diff')
-for f in os.listdir(f'{src}/{i}.demo'):
-    shutil.copy(f'{src}/{i}.demo/{f}', dst + '/demo/' + f)
+shutil.copytree(f'{src}/{i}.demo', dst + '/demo', dirs_exist_ok=True)
 meta = json.load(open(f'{src}/{i}.meta.json'))
 log = open(f'/tmp/sv/{label}.log').read()
 g = lambda k: (re.search(k + r'=(\d+)', log) or [None, '?'])[1]
